@@ -50,11 +50,16 @@ def unjkey(k):
     return tuple(k) if isinstance(k, list) else k
 
 
+PREFER = {}       # table name -> row indices that also occur in the AUTOUGH2 short output of the file at hand
+
+
 def make_item(rng, name, rows, cols, allow_rev, how=None):
     """one (table spec, row key, column) item; rows by name, reversed name or integer index; first/last/interior"""
     nr = len(rows)
     pos = rng.choice(['first', 'last', 'interior'])
     r = 0 if pos == 'first' else nr - 1 if pos == 'last' else rng.randrange(nr)
+    if PREFER.get(name) and rng.random() < 0.5:
+        r = rng.choice(PREFER[name])
     how = how or rng.choice(['name', 'name', 'index'] + (['reversed', 'reversed'] if allow_rev else []))
     col = rng.choice(cols)
     if how == 'index':
@@ -226,6 +231,17 @@ def job_c06(job, progress):
     res['fulltimes'] = [L.bits(x) for x in fulltimes]
     res['alltimes'] = [L.bits(x) for x in alltimes]
     res['path'] = str(path)
+    PREFER.clear()
+    for o in sc.outputs:
+        if o['short']:
+            for tname, t in o['tabs'].items():
+                if tname in tables:
+                    keys = set()
+                    for (ln, ks, idx, toks) in t.rows:
+                        k = tuple(L.fix_name(x) for x in ks)
+                        keys.add(k[0] if len(k) == 1 else k)
+                    PREFER[tname] = [i for i, k in enumerate(tables[tname][0]) if k in keys]
+            break
     if job.get('selections') is not None:
         sels = job['selections']
     else:
